@@ -210,6 +210,12 @@ func mkSlice(arr, off, ln, cp Term) Term {
 
 var nilSlice = T(SSlice, "(mk-slice 0 0 0 0)")
 
+// tIx is the backing-array index of element k of a slice with offset off. It is an uninterpreted
+// function with the axiom ix(o,k) = o+k (prelude): keeping the sum under a function symbol makes the
+// instantiation patterns of quantified facts about s[k] purely syntactic (solvers normalise bare sums,
+// which defeats e-matching).
+func tIx(off, k Term) Term { return app(SInt, "ix", off, k) }
+
 // Decls is a registry of declared SMT symbols, emitted in insertion order.
 type Decls struct {
 	order []string
@@ -251,6 +257,8 @@ const smtPrelude = `(set-option :produce-models true)
 (declare-sort Err 0)
 (declare-sort Bytes 0)
 (declare-datatypes ((Slice 0)) (((mk-slice (s-arr Int) (s-off Int) (s-len Int) (s-cap Int)))))
+(declare-fun ix (Int Int) Int)
+(assert (forall ((o Int) (k Int)) (! (= (ix o k) (+ o k)) :pattern ((ix o k)))))
 (declare-fun height (Hdr) Int)
 (declare-fun htime (Hdr) Int)
 (declare-fun chainID (Hdr) Str)
